@@ -256,12 +256,26 @@ structure LSt (H : Type) where
   lastSent : Nat          -- ns
   writers : List Nat      -- keys of ssrcToWriter
   processed : List (Item H × Bool)   -- ghost: dequeued items, with "a writer was registered"
-  delivered : List (Out H)           -- ghost
+  delivered : List (Out H)           -- ghost: every packet handed to a writer (also when that Write failed)
+  /-- environment: (ssrc, k) = the k-th call (1-based, counted per SSRC) of that stream's next
+  writer returns `(0, err)` -/
+  fails : List (Nat × Nat) := []
+  /-- SSRCs of the writer calls made so far (newest first) -/
+  calls : List Nat := []
 
 /-- `SetTargetBitrate`: `int(1.5 * float64(rate))`. -/
 def leakyTarget (rate : Nat) : Nat := 3 * rate / 2
 
-/-- the pop loop of one tick.  `n` of the bottom writer is `hsz hdr + size`. -/
+/-- `AddStream` for `s` replaces the failure schedule of that stream. -/
+def rebindFails (fails : List (Nat × Nat)) (s : Nat) (fl : List Nat) : List (Nat × Nat) :=
+  fails.filter (fun x => x.1 != s) ++ fl.map (fun k => (s, k))
+
+/-- does the next call of the writer of `ssrc` succeed? -/
+def writerOk {H} (st : LSt H) (ssrc : Nat) : Bool := !(st.fails.contains (ssrc, st.calls.count ssrc + 1))
+
+/-- the pop loop of one tick.  `n` of the bottom writer is `hsz hdr + size`, or 0 with an error
+(the error is only logged: `lastSent` is still updated, nothing is charged, the buffer goes back
+to the pool once). -/
 def leakyLoop {H} (hsz : H → Nat) (now : Nat) :
     List (Item H) → (budget : Int) → LSt H → Res (LSt H)
   | [], _, st => .ok { st with queue := [] }
@@ -270,8 +284,8 @@ def leakyLoop {H} (hsz : H → Nat) (now : Nat) :
       if st.writers.contains it.ssrc then
         match sliceTo it.buf it.size with
         | .ok pl =>
-          leakyLoop hsz now q (budget - ((hsz it.hdr + it.size : Nat) : Int))
-            { st with lastSent := now, processed := st.processed ++ [(it, true)],
+          leakyLoop hsz now q (budget - (if writerOk st it.ssrc then ((hsz it.hdr + it.size : Nat) : Int) else 0))
+            { st with lastSent := now, calls := it.ssrc :: st.calls, processed := st.processed ++ [(it, true)],
                       delivered := st.delivered ++ [⟨it.ssrc, it.hdr, pl⟩] }
         | .err e => .err e
         | .panic s => .panic s
@@ -291,11 +305,15 @@ inductive LEv (H : Type) where
   | bind (ssrc : Nat)
   | setRate (r : Nat)
   | tick (now : Nat)
+  /-- environment: from now on the writer of `ssrc` fails at these calls (counted per SSRC, 1-based);
+  the harness attaches such a schedule to the writer given to `AddStream` -/
+  | setFails (ssrc : Nat) (fails : List Nat)
 
 def lexec {H} (hsz : H → Nat) (mk : List Nat → H → Nat → List Nat → Item H)
     (st : LSt H) : LEv H → Res (LSt H)
   | .write pooled hdr ssrc payload => .ok { st with queue := st.queue ++ [mk pooled hdr ssrc payload] }
   | .bind s => .ok { st with writers := s :: st.writers }
+  | .setFails s fl => .ok { st with fails := rebindFails st.fails s fl }
   | .setRate r => .ok { st with target := leakyTarget r }
   | .tick now => leakyTick hsz st now
 
